@@ -133,26 +133,6 @@ def decToks (pkt : Data) : List String :=
   | .err => ["err"]
   | .panic => ["panic"]
 
-def exec (op : String) (ts : List String) : Option String :=
-  match op with
-  | "encode" => do
-    let (d, rest) ← pMsgDesc ts
-    if !rest.isEmpty then none
-    match encode (build d) with
-    | .panic => pure "panic"
-    | .err => pure "err"
-    | .ok pkts =>
-      pure (joinToks (["ok", toString pkts.length] ++ pkts.map hexOfArr ++ [";"] ++ pkts.flatMap decToks))
-  | "escape" => do
-    let (b, _) ← pHexL ts
-    pure (joinToks ["ok", hexOfBytes (escape b)])
-  | "parse-escaped" => do
-    let (b, _) ← pHexL ts
-    pure (joinToks ("ok" :: listToks (fun l => [hexOfBytes l]) (parseEscaped b)))
-  | _ => none
-
-/-! ### monitor -/
-
 /-- names of a record as label sequences -/
 def recNames (r : Ref.Record) : List Ref.Name :=
   r.name :: (match r.rdata with | .ptr n => [n] | .srv _ _ _ n => [n] | _ => [])
@@ -167,6 +147,29 @@ def allNames (o : OutMsg) : List Ref.Name :=
     never yields an empty label); outside of it the encoder asserts (D10, property C15) -/
 def labelsFit (o : OutMsg) : Bool :=
   (allNames o).all fun n => n.all fun l => l.length < 64
+
+def exec (op : String) (ts : List String) : Option String :=
+  match op with
+  | "encode" => do
+    let (d, rest) ← pMsgDesc ts
+    if !rest.isEmpty then none
+    -- labels of more than 63 bytes are outside the modelled domain (the encoder cuts them
+    -- since the repair of its `assert!`): only "does not panic" is predicted
+    if !((allNames (build d)).all fun n => n.all fun l => l.length < 64) then pure "long-label ok" else
+    match encode (build d) with
+    | .panic => pure "panic"
+    | .err => pure "err"
+    | .ok pkts =>
+      pure (joinToks (["ok", toString pkts.length] ++ pkts.map hexOfArr ++ [";"] ++ pkts.flatMap decToks))
+  | "escape" => do
+    let (b, _) ← pHexL ts
+    pure (joinToks ["ok", hexOfBytes (escape b)])
+  | "parse-escaped" => do
+    let (b, _) ← pHexL ts
+    pure (joinToks ("ok" :: listToks (fun l => [hexOfBytes l]) (parseEscaped b)))
+  | _ => none
+
+/-! ### monitor -/
 
 /-- RFC 1035 2.3.4: a name has at most 255 octets -/
 def namesFit (o : OutMsg) : Bool :=
@@ -252,6 +255,8 @@ def monitor (op : String) (ts impl : List String) : Option String :=
       let o := build d
       match impl with
       | ["panic"] => if labelsFit o then some "encoder-panics" else none
+      | ["long-label", "panic"] => some "encoder-panics-on-long-label"
+      | ["long-label", "ok"] => none
       | "ok" :: rest =>
         match (do
           let (n, rest) ← P.nat rest
